@@ -63,6 +63,10 @@ def run(tier, seed):
                       lambda n: mr.fixed_state(cr, "Variance", n, avg, {2: M2}))
     obs = pr.obs
     obs += vl.run_lemmas("C01", ["lemma_fold", "swap"])
+    import envelope
+    obs += envelope.guard_moments("C01", "Variance", ["mean", "population_variance", "sample_variance", "variance_of_mean", "error"],
+                                  "src/moments/variance.rs::Variance (add-only histories)")
+    obs += envelope.guard_moments("C01", "Mean", ["mean"], "src/moments/mean.rs::Mean (add-only histories)")
     meta = {
         "level": "proof",
         "checker_cmd": "./check C01 (rsx -> RS executor -> sympy normal form / z3 %s QF_NRA; verus history.rs)" % __import__("backends").Z3_VERSION,
@@ -77,8 +81,9 @@ def run(tier, seed):
         "trusted_base": ["rsx + RS executor (own code)", "sympy polynomial arithmetic", "z3 5.1 nlsat", "Verus (history lemma)"],
         "assumptions": [A_REAL, A_INT, A_LIB,
                         "lifting to every sequence and independence of order: Verus lemma_fold / commutative-swap lemma over the power-sum monoid",
+                        "the forward-error envelope is exercised only by a BOUNDED known-answer corpus (envelope_guard: ill-conditioned samples with offsets up to 1e12 x spread, listed under `bounded`); "
                         "the forward-error envelope and its linearity in kappa are not decided by this check (no installed deductive verifier reasons about f64 rounding of this code)"],
         "explanation": "rep(state, power sums) is preserved by add for an arbitrary symbolic summary (all n, all inputs); every accessor equals the textbook statistic of the summary or its documented sentinel.",
     }
     from confirm_rs import confirm_moment
-    return obs, meta, confirm_moment
+    return obs, meta, lambda ob: envelope.confirm_from_cex(ob) or confirm_moment(ob)
